@@ -144,14 +144,21 @@ class IndexClient(PathClient):
         for k, v in self.defs.items():
             if k in recvs and isinstance(v, ast.Subscript):
                 words.add(src_of(v.value))
+            # aliases: value = node.value -> conditions on node.value matter for value
+            if k in recvs and isinstance(v, (ast.Name, ast.Attribute)):
+                words.add(src_of(v))
         self.relevant = [re.compile(r'(?<![\w.])%s(?![\w])' % re.escape(w)) for w in words]
 
     # known minimal length of expression text X from the facts of state s
-    def min_len(self, s, X):
+    def min_len(self, s, X, depth=0):
         best = 0
         v = s.get(('len', X))
         if v is not None:
             best = max(best, v)
+        # a local that stands for another expression on this path (v = node.value): what is known about that expression
+        b = self.binding(s, X) if X.isidentifier() else None
+        if b is not None and b[0] == 'alias' and depth < 3:
+            best = max(best, self.min_len(s, b[1], depth + 1))
         for key, val in s.facts.items():
             if key[0] != 'cond':
                 continue
